@@ -256,9 +256,9 @@ func (cl *csCluster) copyShard(src, dst *csNode, id uint64) (int, string, error)
 }
 
 type csCounters struct {
-	scenarios, copies, ok, failed, advertised, held, cutsDone, leftovers, notCut int
-	classes, cuts                                                                map[string]int
-	sigs                                                                         map[string]int
+	scenarios, copies, ok, failed, advertised, held, cutsDone, leftovers, notCut, snapFails int
+	classes, cuts                                                                           map[string]int
+	sigs                                                                                    map[string]int
 }
 
 func csRun(cl *csCluster, in *csInput, bi int, c *csCounters) (infra error) {
@@ -326,6 +326,7 @@ func csRun(cl *csCluster, in *csInput, bi int, c *csCounters) (infra error) {
 			c.classes[cls]++
 			cut, sent := "none", 0
 			inflight, tombShip := false, false
+			snapFail := ""
 			end := i
 			snapEndAt := -1
 			for j := i + 1; j < len(b); j++ {
@@ -334,6 +335,8 @@ func csRun(cl *csCluster, in *csInput, bi int, c *csCounters) (infra error) {
 					cut, sent = b[j].X, b[j].St.Sent
 				case "SrcMissing":
 					cut = "missing"
+				case "BackupBeginFail":
+					cut, snapFail = "snapfail-"+b[j].X, b[j].X
 				case "BackupBegin":
 					inflight = b[j].St.SnapOn
 					for _, u := range b[j].St.Units {
@@ -355,20 +358,31 @@ func csRun(cl *csCluster, in *csInput, bi int, c *csCounters) (infra error) {
 				return fmt.Errorf("behaviour %d: copy round without an end", bi)
 			}
 			c.cuts[cut]++
-			if cut != "none" && cut != "missing" {
+			planned := cut != "none" && cut != "missing" && snapFail == ""
+			if planned {
 				src.cut.Arm(&c18kit.CutPlan{At: cut, Sent: sent, RST: in.RST})
 			} else {
 				src.cut.Arm(nil)
 			}
 			cutsBefore := src.cut.Cuts
-			src.node.Wake(id)
+			heal := func() {}
+			if snapFail != "" {
+				// the source's own cache snapshot will fail (not: is in progress)
+				if heal, err = src.node.BreakSnapshot(id, snapFail); err != nil {
+					return err
+				}
+				c.snapFails++
+			} else {
+				src.node.Wake(id)
+			}
 			status, body, err := cl.copyShard(src, dst, id)
+			heal()
 			src.cut.Arm(nil)
 			if err != nil {
 				return fmt.Errorf("POST /copy-shard: %v", err)
 			}
 			c.copies++
-			if cut != "none" && cut != "missing" && src.cut.Cuts == cutsBefore {
+			if planned && src.cut.Cuts == cutsBefore {
 				// the real stream has fewer entries than the model's: the copy ran to its end and is judged as one without
 				// fault (the layout of the stream is not what the property speaks about, the copy's content is)
 				vtrace.Mismatch("note:stream-differs:"+cut, fmt.Sprintf("behaviour %d shard %d: the modelled cut %s after %d entries did not happen", bi, id, cut, sent),
@@ -418,7 +432,13 @@ func csRun(cl *csCluster, in *csInput, bi int, c *csCounters) (infra error) {
 					judged = false
 					break
 				}
-				if in, _ := c18kit.InWindow(got, st.Window); !in {
+				if in, _ := c18kit.InWindow(got, st.Window); !in && snapFail != "" {
+					_, near := c18kit.InWindow(got, st.Window)
+					_, missing, stale := got.Diff(near)
+					mismatch("copy:"+tail+"cache-missing", fmt.Sprintf("class %s: the source's cache snapshot failed (%s) yet the copy answered success and the destination is advertised as owner; "+
+						"it reads %s, the source %s (missing in the copy: %v, other value: %v)", cls, snapFail, got, near, missing, stale), end)
+					judged = false
+				} else if !in {
 					dc, detail := c18kit.DiffClass(got, st.Window, cut != "none", inflight, tombShip)
 					mismatch("copy:"+tail+dc, "class "+cls+": destination advertised as owner; "+detail, end)
 					judged = false
@@ -488,7 +508,7 @@ func TestVerifCopyShardNet(t *testing.T) {
 	vtrace.Done("TestVerifCopyShardNet", map[string]interface{}{
 		"behaviours": len(in.Behaviours), "completed": c.scenarios, "copies": c.copies, "http_ok": c.ok, "http_failed": c.failed,
 		"advertised": c.advertised, "held": c.held, "cuts_done": c.cutsDone, "classes": c.classes, "cuts": c.cuts,
-		"source_tmp_leftovers": c.leftovers, "cuts_not_reached": c.notCut, "signatures": c.sigs,
+		"source_tmp_leftovers": c.leftovers, "cuts_not_reached": c.notCut, "snapshot_faults": c.snapFails, "signatures": c.sigs,
 	})
 	if len(c.sigs) > 0 {
 		t.Errorf("mismatches: %v", c.sigs)
